@@ -103,6 +103,11 @@ type Node struct {
 	Cancel context.CancelFunc
 	Ctx    context.Context
 
+	Restarts int
+	// handles of abandoned instances (after a crash-restart), closed with the world
+	oldLDB  []*state.LevelDBState
+	oldCold []*airgapped.Machine
+
 	Cold     *airgapped.Machine
 	ColdDir  string
 	Mnemonic string
@@ -275,3 +280,26 @@ func (n *Node) PollStep(upto int) ([]PollResult, error) {
 }
 
 func signEd(n *Node, bz []byte) []byte { return ed25519.Sign(n.KeyPair.Priv, bz) }
+
+// CloseHandles closes the LevelDB handles of this node's instances (world teardown).
+func (n *Node) CloseHandles() {
+	for _, l := range append(n.oldLDB, n.LDB) {
+		if l != nil {
+			closeDBField(l, "stateDb")
+		}
+	}
+	for _, m := range append(n.oldCold, n.Cold) {
+		if m != nil {
+			closeDBField(m, "db")
+		}
+	}
+	n.oldLDB, n.oldCold, n.LDB, n.Cold = nil, nil, nil, nil
+}
+
+// AbandonCold keeps the old machine handle for teardown and installs a new one.
+func (n *Node) AbandonCold(nm *airgapped.Machine) {
+	if n.Cold != nil {
+		n.oldCold = append(n.oldCold, n.Cold)
+	}
+	n.Cold = nm
+}
